@@ -450,3 +450,23 @@ Section ManagerProofs.
     exact (history_invariant K block c (g_map g) (map_ops K C rs) _ idx ds Hs H).
   Qed.
 End ManagerProofs.
+
+
+(* ---------- what the map check of the correspondence establishes ---------- *)
+Lemma nodup_z_NoDup l : nodup_z l = true -> NoDup l.
+Proof.
+  induction l as [|x r IH]; simpl; [constructor|]. intros H. apply andb_true_iff in H as [H1 H2].
+  constructor; [|now apply IH]. intros Hin. apply zmem_In in Hin. now rewrite Hin in H1.
+Qed.
+
+Lemma map_wf_sound size m : map_wf size m = true ->
+  NoDup (map snd m) /\ forall l p, In (l, p) m -> 0 <= p < size.
+Proof.
+  unfold map_wf. intros H. apply andb_true_iff in H as [H1 H2]. split; [now apply nodup_z_NoDup|].
+  intros l p Hin. rewrite forallb_forall in H1. specialize (H1 (l, p) Hin). simpl in H1. lia.
+Qed.
+
+(* every map accepted by the correspondence gives distinct simulants distinct block elements *)
+Lemma map_wf_distinct size m l1 l2 p1 p2 : map_wf size m = true -> l1 <> l2 ->
+  pos (CRN size (Some m)) l1 = Ok p1 -> pos (CRN size (Some m)) l2 = Ok p2 -> p1 <> p2.
+Proof. intros H. destruct (map_wf_sound size m H) as [Hn Hr]. now apply distinct_positions_crn. Qed.
